@@ -148,8 +148,10 @@ def make_jobs(ctx, scripts, want, lo=520, hi=900, extras_all=True, qscripts=(), 
             continue
         used += 1
         # quick: the BADTIME / existing-PADDING-option configurations run on the seed message (and in the sweep) only
-        if extras_all or i == 0:
-            cfgs = configs(True, quick=not extras_all)
+        if i == 0 or (extras_all and i <= nq):
+            cfgs = configs(True, quick=not extras_all)       # full product + BADTIME / PADDING / EDE / algorithm extras
+        elif extras_all:
+            cfgs = configs(False)                             # thorough, simulated messages: the base product
         elif 1 <= i <= nq:      # quick, multi-question message: reduced product
             cfgs = configs(False, [0, 128], ("off", "on"), ("none", "shared"))
         else:                   # quick, simulated message: reduced product
@@ -230,25 +232,39 @@ def run(ctx):
         jobs += sweep_jobs()
         ctx.extra["messages"] = used
         ctx.log("%d messages -> %d renderings" % (used, len(jobs)))
-        res = ctx.pmap(c08_limits.run_job, jobs)
-        traces = []
+        # drive and validate in batches so that the traces of a thorough run never sit in memory at once
+        rejects = []
         seqjobs = {}
-        for j, r in zip(jobs, res):
-            if isinstance(r, list):       # repeated renderings of one message object: one trace each
-                traces += r
-                for tr in r:
-                    seqjobs[tr["tid"]] = j
-            else:
-                traces.append(r)
-        ctx.distinct = set(tr["tid"] for tr in traces if tr["ev"][-1].get("res") != "ok" or any(
-            x.get("res") == "toobig" for x in tr["ev"]))
-        for tr in traces[:1]:
-            ctx.sample({"tid": tr["tid"], "cfg": tr["cfg"], "ev": [{k: v for k, v in e.items() if k not in ("table", "wire", "mac")} for e in tr["ev"][:6]]})
+        ntr = 0
+        distinct = set()
+        BATCH = 60000
+        for b in range(0, len(jobs), BATCH):
+            part = jobs[b:b + BATCH]
+            traces = []
+            for j, r in zip(part, ctx.pmap(c08_limits.run_job, part)):
+                if isinstance(r, list):       # repeated renderings of one message object: one trace each
+                    traces += r
+                    for tr in r:
+                        seqjobs[tr["tid"]] = j
+                else:
+                    traces.append(r)
+            distinct.update(tr["tid"] for tr in traces if tr["ev"][-1].get("res") != "ok" or any(
+                x.get("res") == "toobig" for x in tr["ev"]))
+            if b == 0:
+                for tr in traces[:1]:
+                    ctx.sample({"tid": tr["tid"], "cfg": tr["cfg"],
+                                "ev": [{k: v for k, v in e.items() if k not in ("table", "wire", "mac")} for e in tr["ev"][:6]]})
+            ntr += len(traces)
+            rejects += ctx.validate("Trace_RendererLimits", "Trace_RendererLimits.cfg", traces)
+            del traces
+        ctx.distinct = distinct
+        ctx.evaluations = ntr + ctx.extra.get("low_level_traces", 0)
     jobmap = {j[0]: j for j in jobs}
-    if not ctx.replay_case:
+    if ctx.replay_case:
+        ctx.evaluations = len(traces)
+        rejects = ctx.validate("Trace_RendererLimits", "Trace_RendererLimits.cfg", traces)
+    else:
         jobmap.update(seqjobs)
-    ctx.evaluations = len(traces)
-    rejects = ctx.validate("Trace_RendererLimits", "Trace_RendererLimits.cfg", traces)
     for tr, line, clause in rejects:
         sig = classify(tr, line, clause)
         e = tr["ev"][line - 1] if line else {}
